@@ -149,6 +149,11 @@ class Tr:
             err(node, "Fields() of %s" % ty)
         if f in ("np.asarray", "float", "np.asanyarray") and len(args) == 1 and not kws:
             return self.expr(args[0])
+        if f == "bool" and len(args) == 1 and not kws:
+            v, ty = self.expr(args[0])
+            if ty == "bool":
+                return v, "bool"
+            err(node, "bool() of %s" % ty)
         if f.startswith("self.effectivePotential."):
             m = f.split(".")[-1]
             if m not in POT_METHODS:
@@ -460,6 +465,198 @@ def _ret_block(tr, stmts):
     err(st, "closure statement")
 
 
+
+# Top-level statements of tracePhase, in order.  ("verbatim", text): the statement must read
+# exactly so (its meaning is fixed in Model/TraceBook.v or it feeds only scipy's RK45 options);
+# ("def", name) / ("for",) / ("tail",): translated elsewhere in this module.  Anything else,
+# a missing statement, a second binding of a parameter or of a name below -> TranslateError.
+TOPLEVEL = [
+    ("doc",),
+    ("verbatim", "extraTol = 0.01 * rTol"),
+    ("verbatim", "T0 = self.startingTemperature"),
+    ("verbatim", "phase0Temp, potential0 = self.effectivePotential.findLocalMinimum("
+                 "self.startingPhaseLocationGuess, T0, tol=extraTol)"),
+    ("verbatim", "phase0 = FieldPoint(phase0Temp[0])"),
+    ("verbatim", "tolAbsolute = rTol * max(*abs(phase0), T0)"),
+    ("def", "odeFunction"),
+    ("verbatim", "ddVT0 = self.effectivePotential.deriv2Field2(phase0, T0)"),
+    ("verbatim", "eigsT0 = np.linalg.eigvalsh(ddVT0)"),
+    ("assert", "min(eigsT0) * max(eigsT0) > 0"),
+    ("def", "spinodalEvent"),
+    ("verbatim", "TList = np.full(1, T0)"),
+    ("verbatim", "fieldList = np.full((1, phase0.numFields()), Fields((phase0,)))"),
+    ("verbatim", "potentialEffList = np.full((1, 1), [potential0])"),
+    ("verbatim", "keepMinFlag = self.minPossibleTemperature[1] and TMin <= "
+                 "self.minPossibleTemperature[0]"),
+    ("verbatim", "keepMaxFlag = self.maxPossibleTemperature[1] and TMax >= "
+                 "self.maxPossibleTemperature[0]"),
+    ("verbatim", "TMin = max(self.minPossibleTemperature[0], TMin)"),
+    ("verbatim", "TMax = min(self.maxPossibleTemperature[0], TMax)"),
+    ("verbatim", "scipyKwargs = {'rtol': rTol, 'atol': tolAbsolute, 'max_step': dT, "
+                 "'first_step': phaseTracerFirstStep}"),
+    ("verbatim", "endpoints = [TMax, TMin]"),
+    ("for",),
+    ("tail",),
+]
+TRACE_PARAMS = ["self", "TMin", "TMax", "dT", "rTol", "spinodal", "paranoid",
+                "phaseTracerFirstStep"]
+
+
+def _toplevel(fn, params):
+    if params != TRACE_PARAMS:
+        raise TranslateError("tracePhase parameters changed: %r" % (params,))
+    body = list(fn.body)
+    k = 0
+    for item in TOPLEVEL:
+        if item[0] == "tail":
+            break
+        if k >= len(body):
+            raise TranslateError("tracePhase: statement %r is missing" % (item,))
+        st = body[k]
+        if item[0] == "doc":
+            if isinstance(st, ast.Expr) and isinstance(st.value, ast.Constant) and \
+                    isinstance(st.value.value, str):
+                k += 1
+            continue
+        if item[0] == "verbatim":
+            if ast.unparse(st) != item[1]:
+                err(st, "top-level statement of tracePhase is not `%s`" % item[1])
+        elif item[0] == "def":
+            if not (isinstance(st, ast.FunctionDef) and st.name == item[1]):
+                err(st, "expected the closure %s here" % item[1])
+        elif item[0] == "assert":
+            if not (isinstance(st, ast.Assert) and ast.unparse(st.test) == item[1]):
+                err(st, "expected `assert %s` here" % item[1])
+        elif item[0] == "for":
+            if not isinstance(st, ast.For):
+                err(st, "expected the loop over directions here")
+        k += 1
+    # no rebinding of parameters / pinned locals anywhere outside the statements above
+    pinned = set(TRACE_PARAMS) | {"extraTol", "T0", "phase0", "potential0", "tolAbsolute",
+                                  "scipyKwargs", "endpoints", "phase0Temp"}
+    allowed = {"TMin": 1, "TMax": 1, "extraTol": 1, "T0": 1, "phase0": 1, "potential0": 1,
+               "tolAbsolute": 1, "scipyKwargs": 1, "endpoints": 1, "phase0Temp": 1}
+    seen = {}
+    for n in ast.walk(fn):
+        if isinstance(n, ast.FunctionDef) and n is not fn:
+            continue
+        if isinstance(n, ast.Name) and isinstance(n.ctx, (ast.Store, ast.Del)) and \
+                n.id in pinned:
+            seen[n.id] = seen.get(n.id, 0) + 1
+    for nm, c in seen.items():
+        if c > allowed.get(nm, 0):
+            raise TranslateError("tracePhase rebinds %s (%d stores)" % (nm, c))
+    # the closures may not rebind anything of the enclosing scope either
+    for n in ast.walk(fn):
+        if isinstance(n, (ast.Nonlocal, ast.Global)):
+            err(n, "nonlocal/global in tracePhase")
+    # the first table entry: (T0, phase0, potential0) with
+    tr = Tr({"guess": ("guess", "Fld"), "T0": ("T0", "R"), "rTol": ("rTol", "R"),
+             "extraTol": ("(extraTol_of rTol)", "R")}, {})
+    call = ast.parse("self.effectivePotential.findLocalMinimum(guess, T0, tol=extraTol)",
+                     mode="eval").body
+    v, ty = tr.expr(call)
+    if ty != "tuple:fields1,R":
+        raise TranslateError("findLocalMinimum result type %s" % ty)
+    tr2 = Tr({"phase0": ("phase0", "Fld"), "T0": ("T0", "R")}, {})
+    dd, ty1 = tr2.expr(ast.parse("self.effectivePotential.deriv2Field2(phase0, T0)",
+                                 mode="eval").body)
+    tr2.env["ddVT0"] = (dd, ty1)
+    eg, ty2 = tr2.expr(ast.parse("np.linalg.eigvalsh(ddVT0)", mode="eval").body)
+    tr2.env["eigsT0"] = (eg, ty2)
+    asr = [x for x in body if isinstance(x, ast.Assert)][0]
+    test = tr2.test(asr.test)
+    return ("(* first table entry: phase0, potential0 = findLocalMinimum(startingPhaseLocationGuess,"
+            " T0, tol=extraTol) *)\n"
+            "Definition first_point (guess : Fld) (T0 rTol : R) : Fld * R := %s.\n\n"
+            "Definition first_eigs (phase0 : Fld) (T0 : R) : list R := %s.\n\n"
+            "(* the stability assert before the loops *)\n"
+            "Definition first_assert (phase0 : Fld) (T0 : R) : bool := %s." % (v, eg, test))
+
+
+
+def _segments(wl, env):
+    """The body of the stepping loop as named straight-line segments:
+         seg_k : lstate -> lstate        consecutive statements without break/continue  (KUpd)
+         seg_k : lstate -> bool          `if test: <logging>; break`                     (KBrk)
+         seg_k, seg_k_do                 `if test: <updates>; continue`                  (KCont)
+    and loop_body composing them in source order after the RK45 step.  Locals do not cross
+    segment boundaries (fail closed on an unbound name)."""
+    closures = {"spinodalEvent": ("spinodalEvent spinodal", ["R", "Fld"], "R")}
+    P = "(T0 rTol : R) (spinodal paranoid : bool)"
+    A = "T0 rTol spinodal paranoid"
+    body = list(wl.body)
+    st0 = body[0]
+    if not (isinstance(st0, ast.Try) and len(st0.body) == 1 and
+            isinstance(st0.body[0], ast.Expr) and
+            ast.unparse(st0.body[0].value) == "ode.step()" and len(st0.handlers) == 1 and
+            _handler_ok(st0.handlers[0].type) and not st0.orelse and not st0.finalbody):
+        err(st0, "the loop does not start with the guarded ode.step()")
+    h = Tr(env, LSTATE, closures).block(st0.handlers[0].body, "st", "BREAK")
+    if h != "BREAK":
+        err(st0, "handler of ode.step() does not end the loop")
+
+    def plain(x):
+        return not (_has(x, ast.Break) or _has(x, ast.Continue) or _has(x, ast.Return) or
+                    _has(x, ast.Raise) or _has(x, ast.While) or _has(x, ast.For))
+
+    def only_logging(xs):
+        return all(isinstance(x, ast.Expr) and isinstance(x.value, ast.Call) and
+                   ast.unparse(x.value.func).split(".")[0] == "logging" for x in xs)
+    defs, kinds, comp = [], [], []
+    # every segment takes the externals X (uniform arity after the Section is closed)
+    DEP = "let _ := X in\n"
+    k, i = 0, 1
+    while i < len(body):
+        x = body[i]
+        if plain(x):
+            grp = []
+            while i < len(body) and plain(body[i]):
+                grp.append(body[i])
+                i += 1
+            k += 1
+            t = Tr(env, LSTATE, closures).block(grp, "st", None)
+            defs.append("Definition seg_%d %s (st : lstate Fld) : lstate Fld :=\n%s%s." % (k, P, DEP, t))
+            kinds.append("KUpd")
+            comp.append(("upd", k))
+            continue
+        if isinstance(x, ast.If) and not x.orelse and x.body and \
+                isinstance(x.body[-1], ast.Break) and only_logging(x.body[:-1]):
+            k += 1
+            t = Tr(env, LSTATE, closures).test(x.test)
+            defs.append("Definition seg_%d %s (st : lstate Fld) : bool :=\n%s%s." % (k, P, DEP, t))
+            kinds.append("KBrk")
+            comp.append(("brk", k))
+        elif isinstance(x, ast.If) and not x.orelse and x.body and \
+                isinstance(x.body[-1], ast.Continue) and all(plain(y) for y in x.body[:-1]):
+            k += 1
+            t = Tr(env, LSTATE, closures).test(x.test)
+            d = Tr(env, LSTATE, closures).block(x.body[:-1], "st", None)
+            defs.append("Definition seg_%d %s (st : lstate Fld) : bool :=\n%s%s." % (k, P, DEP, t))
+            defs.append("Definition seg_%d_do %s (st : lstate Fld) : lstate Fld :=\n%s%s." % (
+                k, P, DEP, d))
+            kinds.append("KCont")
+            comp.append(("cont", k))
+        else:
+            err(x, "loop statement is neither straight-line, `if ..: break` nor "
+                   "`if ..: ..; continue`")
+        i += 1
+    term = "(st, false)"
+    for kind, n in reversed(comp):
+        if kind == "upd":
+            term = "let st := seg_%d %s st in\n%s" % (n, A, term)
+        elif kind == "brk":
+            term = "if seg_%d %s st then (st, true) else (\n%s)" % (n, A, term)
+        else:
+            term = "if seg_%d %s st then (seg_%d_do %s st, false) else (\n%s)" % (n, A, n, A,
+                                                                             term)
+    defs.append("Definition body_shape : list segkind := [%s]." % "; ".join(kinds))
+    defs.append("Definition loop_body %s (st : lstate Fld) : lstate Fld * bool :=\n"
+                "match rk_step X (l_ode st) with\n| None => (st, true)\n| Some ode_1 =>\n"
+                "let st := (set_l_ode st ode_1) in\n%s\nend." % (P, term))
+    return "\n\n".join(defs)
+
+
 LSTATE = {
     "ode": ("(l_ode st)", "(set_l_ode st %s)", "ode"),
     "ode.t": ("(ode_t (l_ode st))", None, "R"),
@@ -508,16 +705,18 @@ def gen_tracephase(src):
     out.append("Definition spinodalEvent (spinodal : bool) (temperature : R) (field : Fld) "
                ": R :=\n%s." % body)
     spans["spinodalEvent"] = (sp_fn.lineno, sp_fn.end_lineno)
+    # ---- every top-level statement of tracePhase must be one the model accounts for -----
+    _ex = _only((x for x in fn.body if isinstance(x, ast.Assign) and
+                 ast.unparse(x.targets[0]) == "extraTol"), "assignment to extraTol")
+    out.append("Definition extraTol_of (rTol : R) : R := %s." %
+               Tr({"rTol": ("rTol", "R")}, {}).expr(_ex.value)[0])
+    out.append(_toplevel(fn, params))
     # ---- locals defined before the loops that the loop reads ---------------------------
     top = {}
     for s in fn.body:
         if isinstance(s, ast.Assign) and len(s.targets) == 1 and \
                 isinstance(s.targets[0], ast.Name):
             top.setdefault(s.targets[0].id, []).append(s)
-    extra = _only(top.get("extraTol", []), "assignment to extraTol")
-    trp = Tr({"rTol": ("rTol", "R")}, {})
-    v, ty = trp.expr(extra.value)
-    out.append("Definition extraTol_of (rTol : R) : R := %s." % v)
     t0 = _only(top.get("T0", []), "assignment to T0")
     if ast.unparse(t0.value) != "self.startingTemperature":
         err(t0, "T0 is not the starting temperature")
@@ -565,10 +764,7 @@ def gen_tracephase(src):
         err(wl, "while loop")
     env = {"T0": ("T0", "R"), "rTol": ("rTol", "R"), "extraTol": ("(extraTol_of rTol)", "R"),
            "paranoid": ("paranoid", "bool"), "spinodal": ("spinodal", "bool")}
-    tr = Tr(env, LSTATE, {"spinodalEvent": ("spinodalEvent spinodal", ["R", "Fld"], "R")})
-    body = tr.block(wl.body, "(st, false)", "(st, true)")
-    out.append("Definition loop_body (T0 rTol : R) (spinodal paranoid : bool) "
-               "(st : lstate Fld) : lstate Fld * bool :=\n%s." % body)
+    out.append(_segments(wl, env))
     spans["loop_body"] = (wl.lineno, wl.end_lineno)
     out.append("Definition trace_dir (fuel : nat) (T0 rTol : R) (spinodal paranoid : bool) "
                "(st : lstate Fld) : lstate Fld :=\n  run_while fuel (fun st => "
@@ -632,6 +828,15 @@ def gen_tracephase(src):
         out.append("Definition clamp_%s (st : ranges) (%s : R) : R := %s." % (nm, nm, v))
         if a.lineno > floop.lineno:
             err(a, "clamp after the loop")
+    # ---- which previously set flags survive this call (evaluated BEFORE the clamps) --------
+    for nm, par in (("keepMinFlag", "TMin"), ("keepMaxFlag", "TMax")):
+        a = _only(top.get(nm, []), "assignment to " + nm)
+        clamp = _only(top.get(par, []), "assignment to " + par)
+        if not a.lineno < clamp.lineno < floop.lineno:
+            err(a, "%s must be computed from the requested %s before it is clamped" % (nm, par))
+        tk = Tr({par: (par, "R")}, RANGES)
+        out.append("Definition %s (st : ranges) (%s : R) : bool := %s." % (
+            {"keepMinFlag": "keep_min", "keepMaxFlag": "keep_max"}[nm], par, tk.test(a.value)))
     # ---- tail: statements after the for loop up to the interpolation --------------------
     idx = fn.body.index(floop)
     tail = []
@@ -646,16 +851,24 @@ def gen_tracephase(src):
             out.append("(* assert after the range update: %s *)" % ast.unparse(s.test))
             continue
         tail.append(s)
-    last = fn.body[-2:]
+    endb = list(fn.body)
+    frozen = ast.unparse(endb[-1]) == "self.disableAdaptiveInterpolation()"
+    if frozen:
+        endb = endb[:-1]
+    out.append("(* after building the table tracePhase switches adaptive interpolation off, so that "
+               "later direct evaluations cannot extend the traced table *)\n"
+               "Definition table_frozen_after_trace : bool := %s." % ("true" if frozen else "false"))
+    last = endb[-2:]
     if [ast.unparse(s) for s in last] != [
             "result = np.concatenate((fieldFullList, potentialEffFullList), axis=1)",
             "self.newInterpolationTableFromValues(TFullList, result)"]:
         err(fn.body[-1], "table construction")
     tt = Tr({"TFullList": ("TFullList", "listR"), "dT": ("dT", "R"), "TMin": ("TMin", "R"),
-             "TMax": ("TMax", "R")}, RANGES)
+             "TMax": ("TMax", "R"), "keepMinFlag": ("keepMinFlag", "bool"),
+             "keepMaxFlag": ("keepMaxFlag", "bool")}, RANGES)
     body = tt.block(tail, "st", None)
-    out.append("Definition tail (TFullList : list R) (dT TMin TMax : R) (st : ranges) : "
-               "ranges :=\n%s." % body)
+    out.append("Definition tail (TFullList : list R) (dT TMin TMax : R) "
+               "(keepMinFlag keepMaxFlag : bool) (st : ranges) : ranges :=\n%s." % body)
     spans["tail"] = (tail[0].lineno, tail[-1].end_lineno)
     # parameter order of tracePhase (for the call facts)
     return "\n\n".join(out), spans, params, fn
@@ -778,11 +991,15 @@ Variable X : ext Fld Hess.
 """
 
 
-def generate(src_free, src_thermo, src_manager):
+def generate(src_free, src_thermo, src_manager, others=None):
+    """`others`: {file name: source} of every further module of the package (call sites)"""
     a, spans, params, fn = gen_tracephase(src_free)
     b, spans2 = gen_tc(src_thermo)
-    c, calls = call_facts({"thermodynamics.py": src_thermo, "manager.py": src_manager,
-                           "freeEnergy.py": src_free}, params, fn)
+    srcs = {"thermodynamics.py": src_thermo, "manager.py": src_manager,
+            "freeEnergy.py": src_free}
+    for k in sorted(others or {}):
+        srcs.setdefault(k, others[k])
+    c, calls = call_facts(srcs, params, fn)
     text = HEADER + a + "\n\nEnd Gen.\n\n" + b + "\n\n" + c + "\n"
     spans.update(spans2)
     return text, spans, calls
